@@ -546,7 +546,7 @@ func TestC14_TTLMapModel(t *testing.T) {
 // the table has room).
 func TestC14_BelowCapacity(t *testing.T) {
 	rapid.Check(t, func(t *rapid.T) {
-		capacity := rapid.SampledFrom([]int{512, 513, 600, 1024, 1500, 2048, 4096}).Draw(t, "capacity")
+		capacity := rapid.SampledFrom([]int{512, 513, 600, 1024, 1500, 2048, 4096, 4096, 9000, 20000}).Draw(t, "capacity")
 		n := capacity - rapid.IntRange(0, 8).Draw(t, "spare")
 		burst := int64(rapid.IntRange(1, 3).Draw(t, "burst"))
 		rs, _ := gen.RateSet([]gen.Rate{{Period: time.Hour, Average: 1, Burst: burst}})
